@@ -187,7 +187,8 @@ Qed.
    ++entry, scan to the next bucket in use, false at the end) - delivers exactly `hiter` (every entry once, bucket
    order) in h_count successful calls and touches nothing outside the bucket array.  It ends with iter->bucket =
    n_buckets; one MORE call in that state returns false and changes nothing in the guarded variant (so do all later
-   calls), but in the code it reads buckets[n_buckets].used, one element past the array (it_fault). *)
+   calls; guard = true is the code since fix e161ae8), while the code BEFORE e161ae8 (guard = false) read buckets[n_buckets].used, one
+   element past the array (it_fault). *)
 Theorem C18_hmap_iter_steps : forall (K : Type) (keq : K -> K -> bool) (hashf : K -> Z),
   (forall a b : K, keq a b = true <-> a = b) ->
   forall (max : option Z) (ikp : bool) (ops : list (hop K)),
@@ -200,7 +201,7 @@ Theorem C18_hmap_iter_steps : forall (K : Type) (keq : K -> K -> bool) (hashf : 
 Proof. exact iter_steps_ok. Qed.
 Print Assumptions C18_hmap_iter_steps.
 
-(* "a further iwhmap_iter_next stays false" as a statement about the CODE is false: witness one put, replayed on the
+(* "a further iwhmap_iter_next stays false" was FALSE of the code before fix e161ae8 (variant guard = false): witness one put, replayed on the
    library by `hm iterx` (ASan: heap-buffer-overflow READ in iwhmap_iter_next; fixes/hmap-iter-next-past-end.diff) *)
 Theorem C18_hmap_iter_next_after_end_refuted :
   exists ops : list (hop Z),
@@ -275,7 +276,7 @@ Theorem C18_hmap_af_nofail : forall (K : Type) (keq : K -> K -> bool) (hashf : K
 Proof. exact af_nofail. Qed.
 Print Assumptions C18_hmap_af_nofail.
 
-(* The repaired `fail:` path of _rehash (fixes/cont-hmap-rehash-fail.diff): for EVERY oracle the call either rehashes
+(* The `fail:` path of _rehash as it is since fix a8b271d (flag code = false; fixes/cont-hmap-rehash-fail.diff): for EVERY oracle the call either rehashes
    exactly as Hmap.rehash or returns the map unchanged; no bucket dangles, no array leaks, no value is lost. *)
 Theorem C18_hmap_rehash_f_repaired : forall (K : Type) (keq : K -> K -> bool) (orc : oracle) (a : amap K) (num : Z),
   let a' := rehash_f K keq orc false a num in
@@ -284,7 +285,7 @@ Theorem C18_hmap_rehash_f_repaired : forall (K : Type) (keq : K -> K -> bool) (o
 Proof. exact rehash_f_repaired. Qed.
 Print Assumptions C18_hmap_rehash_f_repaired.
 
-(* THE CODE (finding cont-hmap-rehash-fail): u32 map, put 1..63, then put 64 (-> _rehash(128)) with the 20th realloc of
+(* THE CODE BEFORE FIX a8b271d (flag code = true; finding cont-hmap-rehash-fail): u32 map, put 1..63, then put 64 (-> _rehash(128)) with the 20th realloc of
    the copy loop failing (`hm failat 20 readd`): every call answers rc = 0, 15 live buckets keep released entry arrays,
    19 arrays of the abandoned table leak, the lookup of key 37 reads released memory, destroy releases the arrays again.
    The repaired code on the same calls and the same oracle: nothing dangles or leaks, get 37 = 137, still 64 buckets. *)
@@ -302,7 +303,7 @@ Theorem C18_hmap_rehash_fail_refuted :
 Proof. exact hmap_rehash_fail_refuted. Qed.
 Print Assumptions C18_hmap_rehash_fail_refuted.
 
-(* THE CODE (finding cont-hmap-rename-fail): iwhmap_rename whose _entry_add(key_new) fails after _entry_remove(key_old)
+(* THE CODE BEFORE FIX a22623c (flag code = true; finding cont-hmap-rename-fail): iwhmap_rename whose _entry_add(key_new) fails after _entry_remove(key_old)
    drops the value - it is neither stored nor reported to kv_free_fn; the repaired code reports it. *)
 Theorem C18_hmap_rename_fail_refuted :
   let ops := [HPut Z 1 11; HRename Z 1 2]%Z in
@@ -315,7 +316,7 @@ Theorem C18_hmap_rename_fail_refuted :
 Proof. exact hmap_rename_fail_refuted. Qed.
 Print Assumptions C18_hmap_rename_fail_refuted.
 
-(* THE REPAIRED CODE UNDER EVERY ALLOCATION ORACLE.  For every key type, hash function, oracle (any function of the
+(* THE CODE (since a8b271d / a22623c: flag code = false) UNDER EVERY ALLOCATION ORACLE.  For every key type, hash function, oracle (any function of the
    history of allocation sites), LRU bound and call sequence there are failure flags - one pair per call: "the call's own
    _entry_add failed" and "the LRU node could not be allocated" - such that the map answers exactly like the association
    list + recency list specification with these flags: same values, counts, rc (a put / rename whose _entry_add failed
